@@ -79,7 +79,7 @@ Section Ahead.
     { intros af. rewrite net_after_snoc. reflexivity. }
     destruct (t_act x) as [sh aps com rate crate | sh aps com rate crate sp | aps rate | sh aps | post pre io] eqn:Ea.
     - (* Buy *)
-      brej H as b E1. apply gez_mul_exact in E1 as [-> _].
+      brej H as b E1. apply gez_div_exact in E1 as [-> _]. unfold Qcdiv in H.
       brej H as eop E2. brej H as na E3. apply gez_add_exact in E3 as [-> _]. brej H as acq E4.
       apply Hlift. eapply IH; [apply adj_inv_keep; [exact Hadj | rewrite Ea; reflexivity] | exact Hps' | exact Hpw | | exact H].
       intros af. rewrite act_update, Hnet. unfold net_shares, buy_shares, sell_shares. rewrite Ea.
@@ -88,11 +88,11 @@ Section Ahead.
       + fold (act s dflt (t_af x)). rewrite (Hact (t_af x)), (Hadj (t_af x)), e, (start_id _ _ e). ring.
       + rewrite (Hact af). ring.
     - (* Sell *)
-      brej H as b E1. apply gez_mul_exact in E1 as [-> _].
+      brej H as b E1. apply gez_div_exact in E1 as [-> _]. unfold Qcdiv in H.
       cbn [a_sub exact bind] in H.
-      destruct (Qcltb (sc_eop s - sh * adj_of (t_af x) adj) 0); [discriminate H|].
+      destruct (Qcltb (sc_eop s - sh * / adj_of (t_af x) adj) 0); [discriminate H|].
       fold (act s dflt (t_af x)) in H.
-      destruct (Qcltb_spec (act s dflt (t_af x) - sh * adj_of (t_af x) adj) 0) as [Hneg|_].
+      destruct (Qcltb_spec (act s dflt (t_af x) - sh * / adj_of (t_af x) adj) 0) as [Hneg|_].
       + (* this row oversells *)
         exists [], x, w, sh, aps, com, rate, crate, sp. split; [reflexivity|]. split; [exact Ea|].
         rewrite app_nil_r.
@@ -123,7 +123,7 @@ Section Ahead.
     - (* Split *)
       unfold split_factor in H.
       brej H as f E1. apply pos_div_exact in E1 as (-> & _ & _).
-      brej H as nsa E2. apply pos_div_exact in E2 as (-> & _ & _).
+      brej H as nsa E2. apply pos_mul_exact in E2 as [-> _].
       apply Hlift. eapply IH; [ | exact Hps' | exact Hpw | | exact H].
       + apply adj_inv_step; [exact Hadj | rewrite Ea; reflexivity|]. unfold split_factor_of. rewrite Ea. reflexivity.
       + intros af. rewrite Hnet. unfold act in *. cbn [sc_active]. rewrite (Hact af).
